@@ -26,11 +26,11 @@ import (
 	"verif.local/harness/sto"
 )
 
-func mountTmpfs(dir string) error {
+func mountTmpfs(dir string, opts string) error {
 	if err := os.MkdirAll(dir, 0o700); err != nil {
 		return err
 	}
-	out, err := exec.Command("mount", "-t", "tmpfs", "-o", "size=1m", "tmpfs", dir).CombinedOutput()
+	out, err := exec.Command("mount", "-t", "tmpfs", "-o", opts, "tmpfs", dir).CombinedOutput()
 	if err != nil {
 		return fmt.Errorf("mount: %v: %s", err, strings.TrimSpace(string(out)))
 	}
@@ -64,14 +64,45 @@ func fillUp(path string) error {
 	return nil
 }
 
-// childTmpfs runs the ENOSPC scenario for VERIF_C13_BACKEND in {diskpacked, files}.
+// fillInodes creates empty files under dir until the file system refuses to create another
+// one (ENOSPC: out of inodes; data space stays free).  It returns the files it made.
+func fillInodes(dir string) ([]string, error) {
+	if err := os.MkdirAll(dir, 0o700); err != nil && !errors.Is(err, syscall.ENOSPC) {
+		return nil, err
+	}
+	var made []string
+	for i := 0; i < 1<<16; i++ {
+		p := filepath.Join(dir, fmt.Sprintf("f%05d", i))
+		f, err := os.OpenFile(p, os.O_CREATE|os.O_WRONLY|os.O_EXCL, 0o600)
+		if err != nil {
+			if errors.Is(err, syscall.ENOSPC) {
+				return made, nil
+			}
+			return made, err
+		}
+		f.Close()
+		made = append(made, p)
+	}
+	return made, errors.New("the file system never ran out of inodes")
+}
+
+// childTmpfs runs the ENOSPC scenario for VERIF_C13_BACKEND in {diskpacked, files,
+// diskpacked-rollover}.  The last one has a 4 KiB maxFileSize on a tmpfs with few inodes: in
+// its odd rounds the file system is out of inodes (not of space), so that the write of a
+// record works and the creation of the next pack file (roll-over) is what fails.
 func childTmpfs() {
 	name := os.Getenv("VERIF_C13_BACKEND")
 	seed := envInt("VERIF_SEED", 1)
 	root := ev.Scratch("c13-tmpfs-" + name)
 	defer os.RemoveAll(root)
 	mnt := filepath.Join(root, "mnt")
-	if err := mountTmpfs(mnt); err != nil {
+	rollover := name == "diskpacked-rollover"
+	label := strings.TrimSuffix(name, "-rollover")
+	opts := "size=1m"
+	if rollover {
+		opts = "size=1m,nr_inodes=96"
+	}
+	if err := mountTmpfs(mnt, opts); err != nil {
 		emit(record{T: "tmpfs", Backend: name, What: "refused: " + err.Error(), Counts: map[string]int{"mount_refused": 1}})
 		return
 	}
@@ -94,11 +125,14 @@ func childTmpfs() {
 	ld := sto.NewLoader()
 	var err error
 	switch name {
-	case "diskpacked":
+	case "diskpacked", "diskpacked-rollover":
 		cause = "receive@packfile.write:enospc"
 		kvc, unreg := regKV("tmpfs-dp", sorted.NewMemoryKeyValue())
 		defer unreg()
 		conf := jsonconfig.Obj{"path": dir, "metaIndex": map[string]any(kvc)}
+		if rollover {
+			conf["maxFileSize"] = float64(4096)
+		}
 		s, err = create("diskpacked", ld, conf)
 		cur := s
 		recover = func() (blobserver.Storage, error) {
@@ -125,33 +159,45 @@ func childTmpfs() {
 		return
 	}
 	rec := record{T: "tmpfs", Backend: name, Counts: map[string]int{}}
+	scenario := "store on a 1 MiB tmpfs; rounds of: fill the file system, receive blobs until one fails with ENOSPC (short write), free the space, retry; then audit, the store's recovery, audit"
+	if rollover {
+		scenario = "diskpacked with maxFileSize 4096 on a 1 MiB tmpfs with 96 inodes; rounds of: exhaust the data space (even rounds) or the inodes (odd rounds: a record is written, the creation of the next pack file fails), receive blobs until one fails with ENOSPC, free the resource, retry the failed receive and receive more; then audit, diskpacked.Reindex into a fresh index, audit"
+	}
 	phase := "enospc"
 	nviol := 0
+	var c *sto.Checker
 	report := func(sig, what string) {
 		class, op := splitSig(sig)
 		var vs string
 		switch {
+		case class == "panic" && rollover:
+			vs = fmt.Sprintf("panic/%s.%s/%s", label, op, cause)
 		case class == "panic":
-			vs = fmt.Sprintf("panic/%s.%s", name, op)
+			vs = fmt.Sprintf("panic/%s.%s", label, op)
 		case phase == "enospc":
-			vs = fmt.Sprintf("silent-wrong-result/%s.%s/%s", name, op, strings.TrimPrefix(cause, "receive@"))
+			vs = fmt.Sprintf("silent-wrong-result/%s.%s/%s", label, op, strings.TrimPrefix(cause, "receive@"))
 		case phase == "after":
 			cl := class
 			if m, ok := afterClass[cl]; ok {
 				cl = m
 			}
-			vs = fmt.Sprintf("%s/%s/%s", cl, name, cause)
+			vs = fmt.Sprintf("%s/%s/%s", cl, label, cause)
 		default:
-			vs = fmt.Sprintf("recovery-disagrees/%s.%s/%s", name, phase, cause)
+			vs = fmt.Sprintf("recovery-disagrees/%s.%s/%s", label, phase, cause)
+		}
+		if class == "panic" && rollover && c != nil {
+			// the store is broken for good from here on: stop, so that the one defect gets one signature
+			c.Dead = true
+			what += fmt.Sprintf(" (a receive had failed with ENOSPC while diskpacked rolled over to the next pack file (%s); the resource was freed again, i.e. the failure had stopped, and this later receive panicked instead of working: the store stays unusable)", cause)
 		}
 		nviol++
 		if nviol <= 4 {
 			emit(record{T: "viol", Backend: name, Site: -1, Sig: vs, What: fmt.Sprintf("[tmpfs:%s] %s: %s", name, class, what), Hang: class == "hang",
 				Replay: map[string]any{"case_id": "tmpfs:" + name + ";", "backend": name, "phase": phase,
-					"scenario": "store on a 1 MiB tmpfs; rounds of: fill the file system, receive blobs until one fails with ENOSPC (short write), free the space, retry; then audit, the store's recovery, audit"}})
+					"scenario": scenario}})
 		}
 	}
-	c := sto.NewChecker(s, name, sto.Caps{Receive: true, Remove: true, SubFetch: true}, uni, report)
+	c = sto.NewChecker(s, name, sto.Caps{Receive: true, Remove: true, SubFetch: true}, uni, report)
 	c.OpTimeout = 20 * time.Second
 	filler := filepath.Join(mnt, "filler")
 	next := 0
@@ -168,14 +214,33 @@ func childTmpfs() {
 		}
 	}
 	prng := rand.New(rand.NewSource(seed))
-	for round := 0; round < 6 && !c.Dead; round++ {
+	rounds, tries := 6, 6
+	if rollover {
+		rounds, tries = 8, 12
+	}
+	for round := 0; round < rounds && !c.Dead; round++ {
 		phase = "enospc"
-		if err := fillUp(filler); err != nil {
-			emit(record{T: "inconcl", Backend: name, What: "tmpfs fill: " + err.Error()})
-			return
+		var inodeFiles []string
+		if rollover && round%2 == 1 {
+			cause = "receive@packfile.create:enospc"
+			var err error
+			if inodeFiles, err = fillInodes(filepath.Join(mnt, "inodes")); err != nil {
+				emit(record{T: "inconcl", Backend: name, What: "tmpfs inode fill: " + err.Error()})
+				return
+			}
+		} else {
+			cause = "receive@packfile.write:enospc"
+			if name == "files" {
+				cause = "receive@tempfile.write:enospc"
+			}
+			if err := fillUp(filler); err != nil {
+				emit(record{T: "inconcl", Backend: name, What: "tmpfs fill: " + err.Error()})
+				return
+			}
 		}
+		packs0 := countPacks(dir)
 		var failed []sto.Blob
-		for try := 0; try < 6 && !c.Dead; try++ {
+		for try := 0; try < tries && !c.Dead; try++ {
 			b, ok := take()
 			if !ok {
 				break
@@ -188,11 +253,20 @@ func childTmpfs() {
 				if errors.Is(c.LastErr(), syscall.ENOSPC) {
 					rec.Counts["receives_failed_with_ENOSPC_errno"]++
 				}
+				if len(inodeFiles) > 0 {
+					rec.Counts["receives_failed_at_pack_creation"]++
+				}
 				break
 			}
 			rec.Counts["receives_fitting_in_slack"]++
 		}
+		if rollover && countPacks(dir) > packs0 {
+			rec.Counts["rounds_with_rollover_under_enospc"]++
+		}
 		os.Remove(filler) // the failure stops
+		for _, p := range inodeFiles {
+			os.Remove(p)
+		}
 		phase = "after"
 		for _, b := range failed {
 			c.Fetch(b)   // resolves the uncertain ref
@@ -220,12 +294,12 @@ func childTmpfs() {
 		ok := ev.WithTimeout(60*time.Second, func() { ns, rerr = recover() })
 		switch {
 		case !ok:
-			emit(record{T: "viol", Backend: name, Site: -1, Sig: fmt.Sprintf("hang/%s.%s/%s", name, phase, cause), Hang: true, What: "recovery did not return"})
+			emit(record{T: "viol", Backend: name, Site: -1, Sig: fmt.Sprintf("hang/%s.%s/%s", label, phase, cause), Hang: true, What: "recovery did not return"})
 		case rerr != nil:
-			emit(record{T: "viol", Backend: name, Site: -1, Sig: fmt.Sprintf("recovery-fails/%s.%s/%s", name, phase, cause),
+			emit(record{T: "viol", Backend: name, Site: -1, Sig: fmt.Sprintf("recovery-fails/%s.%s/%s", label, phase, cause),
 				What: fmt.Sprintf("[tmpfs:%s] after %d receives failed with ENOSPC (short writes into the pack) and space was freed, the store's own recovery fails: %v", name, rec.Counts["receives_failed_enospc"], rerr),
 				Replay: map[string]any{"case_id": "tmpfs:" + name + ";", "backend": name, "counts": rec.Counts,
-					"scenario": "store on a 1 MiB tmpfs; rounds of: fill the file system, receive blobs until one fails with ENOSPC (short write), free the space, retry; then audit, the store's recovery, audit"}})
+					"scenario": scenario}})
 		default:
 			c.S = ns
 			c.Audit(prng, false)
